@@ -163,7 +163,18 @@ void __wrap_exit(int code) {
 #if !defined(VARIANT_NOPOOL) && !defined(VARIANT_TSAN)
 #include "object_pool.h"
 void * __real_pool_allocate_object(pool * p);
+static pool * g_pool = NULL;
+void pool_state(long * slabs, long * next) {
+	*slabs = -1; *next = -1;
+	if (!g_pool) return;
+	*slabs = (long)g_pool->allocated->size;
+	if (g_pool->next == NULL) { *next = -1; return; }
+	char * slab = *slabs > 0 ? (char *)g_pool->allocated->element[*slabs - 1] : NULL;
+	*next = slab ? (long)(((char *)g_pool->next - slab) / g_pool->object_size) : -2;
+}
+void pool_forget(void) { g_pool = NULL; }
 void * __wrap_pool_allocate_object(pool * p) {
+	g_pool = p;
 	void * a = __real_pool_allocate_object(p);
 	g_wrap_alloc_count++;
 	if (g_log_allocs) {
@@ -175,6 +186,9 @@ void * __wrap_pool_allocate_object(pool * p) {
 	}
 	return a;
 }
+#else
+void pool_state(long * slabs, long * next) { *slabs = -1; *next = -1; }
+void pool_forget(void) {}
 #endif
 unsigned long __real_ran_num_next(void);
 unsigned long __wrap_ran_num_next(void) { g_wrap_rng_count++; return __real_ran_num_next(); }
